@@ -377,11 +377,14 @@ func (c *Ctx) aCall(fn *ssa.Function, args []aVal, env *aEnv, depth int, sums ma
 	}
 	var prev *ssa.BasicBlock
 	b := fn.Blocks[0]
+	visited := map[*ssa.BasicBlock]bool{}
 	for steps := 0; ; steps++ {
-		if steps > 400 {
-			env.undecided("loop or too many blocks in " + fnName(fn))
+		if steps > 400 || visited[b] {
+			// the fragment is loop-free: re-entering a block means a loop
+			env.undecided("loop in " + fnName(fn))
 			return aSym("loop?")
 		}
+		visited[b] = true
 		var next *ssa.BasicBlock
 		for _, in := range b.Instrs {
 			switch x := in.(type) {
